@@ -240,5 +240,45 @@ def handle (st : St) : List String → St × String
     | none => (st, "bad-op")
   | _ => (st, "bad-op")
 
-def main : IO Unit := do
-  loopState (← IO.getStdin) (← IO.getStdout) handle ({} : St)
+/-! ### large cases run in a child process
+
+The model works on `List Byte`; after a few cases with 200 KB lists the allocator's free lists are
+scattered and every later list walk in the same process gets several times slower. A case whose
+`begin` line is longer than `bigCase` bytes is therefore handed — all its lines, up to the next
+`begin` — to a fresh copy of this executable (`--inline`: never delegates), which answers on the
+inherited stdout. The answers are those of `handle` either way. -/
+
+def bigCase : Nat := 60000
+
+partial def collectCase (h : IO.FS.Stream) (acc : Array String) : IO (Array String × Option String) := do
+  let line ← h.getLine
+  if line.isEmpty then return (acc, none)
+  if line.startsWith "begin" then return (acc, some line)
+  collectCase h (acc.push line)
+
+def feed (cin : IO.FS.Handle) (lines : Array String) : IO Unit := do
+  for l in lines do cin.putStr l
+  cin.flush
+
+partial def mainLoop (isolate : Bool) (h out : IO.FS.Stream) (st : St) (pending : Option String) : IO Unit := do
+  let line ← match pending with
+    | some l => pure l
+    | none => h.getLine
+  if line.isEmpty then return ()
+  if isolate && line.startsWith "begin " && line.utf8ByteSize > bigCase then
+    let (lines, next) ← collectCase h #[line]
+    out.flush
+    let child ← IO.Process.spawn
+      { cmd := (← IO.appPath).toString, args := #["--inline"], stdin := .piped, stdout := .inherit, stderr := .inherit }
+    let (cin, child) ← child.takeStdin
+    feed cin lines
+    let rc ← child.wait
+    if rc != 0 then throw (IO.userError s!"child driver exited {rc}")
+    mainLoop isolate h out {} next
+  else
+    let (s', r) := handle st (tokens line)
+    out.putStrLn r
+    mainLoop isolate h out s' none
+
+def main (args : List String) : IO Unit := do
+  mainLoop (!args.contains "--inline") (← IO.getStdin) (← IO.getStdout) ({} : St) none
